@@ -125,6 +125,14 @@ Definition post_process (p : tparams) (d : pdata) (tn : t) : pdata :=
 Definition run_pd (p : tparams) (t0 : t) (ts : list t) : pdata :=
   fold_left (post_process p) ts (setup_pd p t0).
 
+(* several solve() calls with the temperature specification changed in between (setup runs once, at the
+   first call): a segment = the parameter object in force during one solve call and the times of its
+   accepted steps *)
+Definition run_seg (d : pdata) (seg : tparams * list t) : pdata :=
+  fold_left (post_process (fst seg)) (snd seg) d.
+Definition run_segs (p0 : tparams) (t0 : t) (segs : list (tparams * list t)) : pdata :=
+  fold_left run_seg segs (setup_pd p0 t0).
+
 (* ------------------------------------------------------------------------------------------ *)
 (* TemperatureParameters of the diffusion package (no flag; functions of (z, t) -> array)       *)
 Inductive dkind :=
